@@ -136,6 +136,7 @@ def main(job_path):
         )
     finally:
         try:
+            mon.flags["at_exit"] = True
             mon.flush()
         except Exception:  # pragma: no cover
             pass
